@@ -5,6 +5,11 @@ import Mouette.Lemmas.SubdivArea
 import Mouette.Lemmas.SubdivArea2
 import Mouette.Lemmas.SubdivVolume
 import Mouette.Lemmas.SubdivTables
+import Mouette.Lemmas.SubdivEdges4
+import Mouette.Lemmas.SubdivVolume2
+import Mouette.Lemmas.SubdivManifold2
+import Mouette.Lemmas.SubdivComplete3
+import Mouette.Lemmas.SubdivComplete9
 /-
 C13 — subdivision refines a mesh without changing its shape or topology.
 
@@ -15,18 +20,21 @@ Helper lemmas are in `Mouette/Lemmas/Subdiv*.lean`.
 
 Clauses of the property and where they are discharged:
   * documented element counts ........ `*_counts` (all operations)
-  * Euler characteristic ............. `euler_invariant_*` on the containers the code maintains (exact for the in-place
-        surface operations, any sequence of them, and split_edge); `…_partial` for the operations whose edge/face
-        list is rebuilt through a set / through prepare()'s completion (the count of distinct edges is a hypothesis,
-        checked on every scenario by the correspondence and by the independent oracle)
+  * Euler characteristic ............. `euler_invariant_*`: exact for every operation (round 2). In-place surface operations
+        and split_edge on the containers the code maintains; 1→4, 1→3 quads, 1→6 through the number of DISTINCT edges of the
+        rebuilt edge `set` (`loop_distinct_edge_count`, `quads3_distinct_edge_count`); cell fan and face-centre split
+        through the number of faces / edges completed by prepare(); each under decidable hypotheses on the input
+        (`EdgesAreSides`, `TriNondeg`, `SharesAtMostOne`; `FacesAreCellFaces`, `EdgesCoverSides`, `TetCells`, `CellsDistinct`)
+  * manifoldness (partly) ............ `manifold_preserved_loop/_fan`, `border_preserved_loop/_fan`: every directed side in at
+        most one face, border sides ↔ (halves of) border sides
   * same total area / volume ......... `area_preserved_*` (mesh level for every surface operation and for every sequence
         of them: `area_preserved_block`), `area_parts_positive_*` (sub-faces are positive multiples of the parent, so scalar area
-        is preserved too), `volume_preserved_*`
+        is preserved too), `volume_preserved_*` (mesh level for both volume splits)
   * old vertices in place, new at centres  `old_vertices_unchanged`, `new_vertex_is_centre`
   * input object never half-updated ... `input_object_state` (repaired `__exit__`), `input_object_state_shipped_refuted`
         (the pinned tree's `__exit__`, concrete witness)
-  * manifoldness, border loops, components, connectivity answers of the result: NOT proved here (oracle +
-        correspondence only; see the report).
+  * number of border loops, connected components, the umbrella condition at vertices, connectivity answers of the
+        result: NOT proved here (oracle + correspondence only; see the comment of the manifoldness section).
 -/
 namespace Mouette.Props.C13
 open Mouette.Subdiv
@@ -158,34 +166,116 @@ theorem euler_invariant_split_edge (m m' : Raw) (eid : Nat) (h : splitEdge m eid
   obtain ⟨_, _, _, _, _, _, _, hv, hed, _, _⟩ := splitEdge_spec m m' eid h
   unfold chiLine; rw [hv, hed]; simp
 
-/- FULL STATEMENT (not proved): for an oriented manifold triangle mesh `m` whose edge list is exactly the set of
-   sides of its faces and whose faces have pairwise distinct vertex sets, `loopOnce m = .ok m'` implies
-   `m'.edges.length = 2 * m.edges.length + 3 * m.faces.length` (the `set` of the 9·F keyified pairs has that many
-   elements) and hence `chiRaw m' = chiRaw m`; similarly 3quads: E' = 2E + 3F, 1→6: E' = 2E + 6F.
-   Proved below: the vertex and face counts are exact for all meshes; given the edge count (checked on every
-   scenario of the correspondence run against the code and by the independent oracle), χ is invariant. -/
-theorem euler_invariant_loop_partial (m m' : Raw) (h : loopOnce m = .ok m')
-    (hE : m'.edges.length = 2 * m.edges.length + 3 * m.faces.length) : chiRaw m' = chiRaw m := by
-  obtain ⟨hv, hf, _⟩ := loop_counts' m m' h
-  unfold chiRaw; rw [hv, hf, hE]; push_cast; omega
+/-! Round 2: the number of DISTINCT edges written by the refinements that rebuild the edge list through a `set`.
+Hypotheses (all decidable, checked by `decide` on the witnesses below):
+  `EdgesAreSides m`   the edge list is a duplicate-free list of sorted vertex pairs and is exactly the set of undirected
+                      sides of the faces (what `prepare()` establishes);
+  `TriNondeg m`       every face has pairwise distinct vertices;
+  `SharesAtMostOne m` two different faces have at most one undirected side in common (needed for 1→4 only: the inner
+                      edge {m_ab, m_bc} is shared by two faces exactly when they share the sides ab and bc — the
+                      two-triangle "pillow" is a counter-example without it). -/
 
-theorem euler_invariant_quads3_partial (m m' : Raw) (h : quads3Core m = .ok m')
-    (hE : m'.edges.length = 2 * m.edges.length + 3 * m.faces.length) : chiRaw m' = chiRaw m := by
-  obtain ⟨hv, hf, _⟩ := quads3Core_counts m m' h
-  unfold chiRaw; rw [hv, hf, hE]; push_cast; omega
+/-- one pass of `loop_subdivision`: the `set` of the 9·F keyified pairs has exactly 2E + 3F elements. -/
+theorem loop_distinct_edge_count (m m' : Raw) (h : loopOnce m = .ok m') (hE : EdgesAreSides m) (hN : TriNondeg m)
+    (hS : SharesAtMostOne m) : m'.edges.length = 2 * m.edges.length + 3 * m.faces.length ∧ m'.edges.Nodup := by
+  refine ⟨loop_edge_count m m' h hE hN hS, ?_⟩
+  obtain ⟨_, _, _, _, _, _, he, _⟩ := loopOnce_spec m m' h
+  rw [he]; exact dedup_nodup _
 
-/- FULL STATEMENT (not proved): for a conforming tetrahedral mesh with complete face and edge lists,
-   `prepare (splitCellAsFan m cid)` has 4 more edges and 6 more faces, and `prepare (splitTetFromFaceCenter m fid)`
-   has 3 + k more edges and 2 + 3k more faces (k = number of cells on the face).  Proved: vertex and cell counts
-   (above); the arithmetic of the alternating sum given those completion counts. -/
-theorem euler_invariant_cell_fan_partial (V E F C V' E' F' C' : Int)
-    (hV : V' = V + 1) (hC : C' = C + 3) (hE : E' = E + 4) (hF : F' = F + 6) : V' - E' + F' - C' = V - E + F - C := by
-  omega
+/-- **Euler characteristic preserved by the 1→4 refinement**: V' − E' + F' = V − E + F. -/
+theorem euler_invariant_loop (m m' : Raw) (h : loopOnce m = .ok m') (hE : EdgesAreSides m) (hN : TriNondeg m)
+    (hS : SharesAtMostOne m) : chiRaw m' = chiRaw m :=
+  loopOnce_chi m m' h hE hN hS
 
-theorem euler_invariant_face_center_partial (V E F C V' E' F' C' k : Int)
-    (hV : V' = V + 1) (hC : C' = C + 2 * k) (hE : E' = E + 3 + k) (hF : F' = F + 2 + 3 * k) :
-    V' - E' + F' - C' = V - E + F - C := by
-  omega
+/-- `subdivide_triangles_3quads` on a triangle mesh: E' = 2E + 3F distinct edges. -/
+theorem quads3_distinct_edge_count (m m' : Raw) (h3 : ∀ f ∈ m.faces, f.length = 3) (h : quads3 m = .ok m')
+    (hE : EdgesAreSides m) (hN : TriNondeg m) : m'.edges.length = 2 * m.edges.length + 3 * m.faces.length :=
+  quads3Core_edge_count m m' (quads3_tri m m' h3 h) hE hN
+
+/-- **Euler characteristic preserved by the 1→3-quads refinement.** -/
+theorem euler_invariant_quads3 (m m' : Raw) (h3 : ∀ f ∈ m.faces, f.length = 3) (h : quads3 m = .ok m')
+    (hE : EdgesAreSides m) (hN : TriNondeg m) : chiRaw m' = chiRaw m :=
+  quads3Core_chi m m' (quads3_tri m m' h3 h) hE hN
+
+/-- **1→6 refinement of a triangle mesh**: V'' = V+E+F, E'' = 2E+6F, F'' = 6F, hence χ preserved. -/
+theorem euler_invariant_sub6 (m m' : Raw) (h3 : ∀ f ∈ m.faces, f.length = 3) (h : sub6 m 1 = .ok m')
+    (hE : EdgesAreSides m) (hN : TriNondeg m) :
+    (m'.verts.length = m.verts.length + m.edges.length + m.faces.length ∧
+     m'.edges.length = 2 * m.edges.length + 6 * m.faces.length ∧ m'.faces.length = 6 * m.faces.length) ∧
+    chiRaw m' = chiRaw m :=
+  ⟨sub6_tri_counts m m' h3 h hE hN, sub6_tri_chi m m' h3 h hE hN⟩
+
+/-- **`split_cell_as_fan` + `prepare()`**: the completion adds exactly 6 faces and 4 edges, so V − E + F − C is preserved.
+Hypotheses (decidable): the face list has pairwise different keys and contains every face of every cell
+(`FacesAreCellFaces`), the edge list is a duplicate-free list of sorted vertex pairs containing every side of every
+face (`EdgesCoverSides`), face indices are vertices (`WF`), the cell has four different vertices. -/
+theorem euler_invariant_cell_fan (m m' : Raw) (cid a b c d : Nat) (hc : m.cells[cid]? = some [a, b, c, d])
+    (h : splitCellAsFan m cid = .ok m') (hF : FacesAreCellFaces m) (hwf : WF m) (hE : EdgesCoverSides m)
+    (hcn : [a, b, c, d].Nodup) :
+    ((prepare m').verts.length = m.verts.length + 1 ∧ (prepare m').edges.length = m.edges.length + 4 ∧
+     (prepare m').faces.length = m.faces.length + 6 ∧ (prepare m').cells.length = m.cells.length + 3) ∧
+    chiVol (prepare m') = chiVol m :=
+  ⟨cellFan_prepare_counts m m' cid a b c d hc h hF hwf hE hcn, cellFan_chi m m' cid a b c d hc h hF hwf hE hcn⟩
+
+/-- **`split_tet_from_face_center` + `prepare()`**: with k the number of cells of the current cell list that contain the
+face, the completion adds 3k faces (the face list already got +2) and 3 + k edges, so V − E + F − C is preserved.
+Hypotheses (decidable): `FacesAreCellFaces`, `EdgesCoverSides`, `WF` as for the cell fan; every cell is a tetrahedron on four
+different vertices of the mesh (`TetCells`); no two cells have the same four vertices (`CellsDistinct`, so that the cells on
+the face have different opposite vertices); the face has three different vertices. -/
+theorem euler_invariant_face_center (m m' : Raw) (fid a b c : Nat) (hf : m.faces[fid]? = some [a, b, c])
+    (h : splitTetFromFaceCenter m fid = .ok m') (hF : FacesAreCellFaces m) (hwf : WF m) (hE : EdgesCoverSides m)
+    (hT : TetCells m) (hD : CellsDistinct m) (hn : [a, b, c].Nodup) :
+    ((prepare m').verts.length = m.verts.length + 1 ∧
+     (prepare m').edges.length = m.edges.length + 3 + (adjacentCells m [a, b, c]).length ∧
+     (prepare m').faces.length = m.faces.length + 2 + 3 * (adjacentCells m [a, b, c]).length ∧
+     (prepare m').cells.length = m.cells.length + 2 * (adjacentCells m [a, b, c]).length) ∧
+    chiVol (prepare m') = chiVol m :=
+  faceSplit_chi m m' fid a b c hf h hF hwf hE hT hD hn
+
+/-! ## manifoldness: consistent orientation and border sides (round 2)
+
+`OrientedSides m`: every directed side (a → b) of a face occurs at most once in the whole face list, i.e. the faces are
+consistently oriented and every undirected edge has at most two incident faces.  A directed side is a *border* side
+when its opposite (b → a) does not occur.
+
+Proved for the 1→4 pass and for the fan split: `OrientedSides` is preserved, and the border sides of the result are exactly
+the halves of the border sides of the input (1→4) / exactly the border sides of the input (fan).  So the number of border
+sides doubles / stays, every border vertex of the result is an old border vertex or the midpoint of a border edge.
+NOT proved: (i) that the successor structure of the border sides (which side follows which around a hole) is carried
+over, which is what "same number of border loops" needs: the halves (u,m),(m,v) of a border side are consecutive and
+(m,v) is followed by the first half of the border side that followed (u,v), so every loop of length k becomes one loop of
+length 2k — this needs a formal definition of loops as cycles of that successor map; (ii) the umbrella condition at
+vertices (the corners around a vertex form one fan) and hence full 2-manifoldness; (iii) connected components (the
+refined faces of one face are connected to each other through the new vertices and two faces adjacent through an edge stay
+adjacent through its halves — needs a formal notion of face-adjacency paths); (iv) the same for the quad cut of
+`triangulate_face`, which is FALSE in general (open finding `C13/triangulate/non-regular-complex`: the diagonal may already
+be a side) and for 1→3 quads / 1→6. -/
+
+/-- the 1→4 pass preserves consistent orientation / at most two faces per edge. -/
+theorem manifold_preserved_loop (m m' : Raw) (h : loopOnce m = .ok m') (hes : EdgesSorted m) (ho : OrientedSides m)
+    (hS : SharesAtMostOne m) : OrientedSides m' :=
+  loop_oriented m m' h hes ho hS
+
+/-- 1→4: a directed side of the result has no opposite iff it is one of the two halves (u → m_uv), (m_uv → v) of a directed
+side (u → v) of the input that has no opposite. -/
+theorem border_preserved_loop (m m' : Raw) (h : loopOnce m = .ok m') (hes : EdgesSorted m) (x : Nat × Nat)
+    (hx : x ∈ dirSides m') :
+    (x.2, x.1) ∉ dirSides m' ↔
+      ∃ u v mu, (u, v) ∈ dirSides m ∧ (v, u) ∉ dirSides m ∧
+        halfLookup m.edges m.verts.length (keyify u v) = some mu ∧ (x = (u, mu) ∨ x = (mu, v)) :=
+  loop_border m m' h hes x hx
+
+/-- fan split: as a multiset, the directed sides of the result are those of the input plus both orientations of every
+spoke; consistent orientation is preserved. -/
+theorem manifold_preserved_fan (m m' : Raw) (fid : Nat) (hwf : WF m) (hn : ∀ f ∈ m.faces, f.Nodup) (ho : OrientedSides m)
+    (h : splitFaceAsFan m fid = .ok m') :
+    OrientedSides m' ∧ ∃ f, m.faces[fid]? = some f ∧ (dirSides m').Perm (dirSides m ++ spokes f m.verts.length) :=
+  ⟨fan_oriented m m' fid hwf hn ho h, fan_dirSides_perm m m' fid h⟩
+
+/-- fan split: the border sides of the result are exactly the border sides of the input. -/
+theorem border_preserved_fan (m m' : Raw) (fid : Nat) (hwf : WF m) (h : splitFaceAsFan m fid = .ok m') (x : Nat × Nat)
+    (hx : x ∈ dirSides m') : (x.2, x.1) ∉ dirSides m' ↔ (x ∈ dirSides m ∧ (x.2, x.1) ∉ dirSides m) :=
+  fan_border m m' fid hwf h x hx
 
 /-! ## area and volume -/
 
@@ -245,11 +335,17 @@ theorem volume_preserved_cell_fan (m m' : Raw) (cid a b c d : Nat) (hwf : WFC m)
       vol6 pa pb g pd = (1/4) * vol6 pa pb pc pd ∧ vol6 pa pb pc g = (1/4) * vol6 pa pb pc pd) :=
   ⟨cellFan_volume m m' cid a b c d hwf hc h, fun pa pb pc pd => vol_cell_fan pa pb pc pd⟩
 
-/- FULL STATEMENT (not proved at mesh level): `splitTetFromFaceCenter m fid = .ok m' → totalVol6 m' = totalVol6 m`.
-   Proved: whatever the position of the vertex opposite to the face in the cell, the three cells obtained by putting
-   the face centre at each of the other positions are each ⅓ of the parent with the parent's sign, and the centre
-   does not depend on the order of the face's vertices. -/
-theorem volume_preserved_face_center_partial (a b c d : Pt) :
+/-- **`split_tet_from_face_center` preserves the total signed volume of the mesh** (mesh level: induction over the loop
+on the cells that contain the face in the current cell list; the face centre does not depend on the order of the
+face's vertices, and the three new cells are each ⅓ of the one they replace). -/
+theorem volume_preserved_face_center (m m' : Raw) (fid a b c : Nat) (hwf : WFC m) (hall : ∀ x ∈ m.cells, x.length = 4)
+    (hn : [a, b, c].Nodup) (hf : m.faces[fid]? = some [a, b, c]) (h : splitTetFromFaceCenter m fid = .ok m') :
+    totalVol6 m' = totalVol6 m :=
+  faceSplit_volume m m' fid a b c hwf hall hn hf h
+
+/-- per cell: whatever the position of the vertex opposite to the face, each of the three new cells is ⅓ of the parent
+with the parent's sign (so unsigned volumes add up as well). -/
+theorem volume_parts_positive_face_center (a b c d : Pt) :
     (let g := centre3 b c d
      vol6 a g c d = (1/3) * vol6 a b c d ∧ vol6 a b g d = (1/3) * vol6 a b c d ∧ vol6 a b c g = (1/3) * vol6 a b c d) ∧
     (let g := centre3 a c d
@@ -410,6 +506,17 @@ example : ∃ m', quads3 witnessMesh = .ok m' ∧ m'.faces.length = 6 := ⟨_, r
 example : ∃ m', sub6 witnessMesh 1 = .ok m' ∧ m'.faces.length = 12 := ⟨_, rfl, by decide⟩
 
 example : WFC oneTet := by unfold WFC; decide
+example : EdgesAreSides witnessMesh ∧ TriNondeg witnessMesh ∧ SharesAtMostOne witnessMesh := by decide
+example : OrientedSides witnessMesh ∧ EdgesSorted witnessMesh := by decide
+example : OrientedSides pentagon ∧ (∀ f ∈ pentagon.faces, f.Nodup) := by decide
+example : FacesAreCellFaces oneTet ∧ EdgesCoverSides oneTet ∧ WF oneTet := by
+  refine ⟨by decide, by decide, by unfold WF; decide⟩
+example : FacesAreCellFaces twoTets := by decide +kernel
+example : EdgesCoverSides twoTets := by decide +kernel
+example : TetCells twoTets ∧ CellsDistinct twoTets := by decide +kernel
+example : (adjacentCells twoTets [1, 3, 2]).length = 2 ∧ twoTets.faces[0]? = some [1, 3, 2] := by decide +kernel
+example : ∃ m', splitTetFromFaceCenter twoTets 0 = .ok m' ∧ (prepare m').faces.length = twoTets.faces.length + 8 ∧
+    (prepare m').edges.length = twoTets.edges.length + 5 := ⟨_, rfl, by decide +kernel, by decide +kernel⟩
 example : ∃ m', splitCellAsFan oneTet 0 = .ok m' ∧ m'.cells.length = 4 := ⟨_, rfl, by decide⟩
 example : ∃ m', splitTetFromFaceCenter oneTet 0 = .ok m' ∧ m'.cells.length = 3 ∧ (prepare m').faces.length = 9 :=
   ⟨_, rfl, by decide, by decide⟩
